@@ -86,7 +86,9 @@ def run(module, cfg=None, workers=1, env=None, timeout=1800, simulate=None, dept
     Raises TLCError if TLC could not complete its job (anything except a clean
     pass or a reported property violation)."""
     meta = scratch_dir("tlcmeta_")
-    cmd = ["java", "-XX:+UseParallelGC", "-Xmx" + heap]
+    cmd = ["java", "-XX:+UseSerialGC" if workers == 1 else "-XX:+UseParallelGC", "-Xmx" + heap]
+    if workers != 1:
+        cmd.append("-XX:ParallelGCThreads=%d" % max(2, min(8, int(workers) // 2)))
     if dfs:
         cmd.append("-Dtlc2.tool.queue.IStateQueue=StateDeque")
     cmd += ["-cp", JAR + ":" + CM, "tlc2.TLC", "-metadir", meta, "-noGenerateSpecTE",
